@@ -143,8 +143,68 @@ def reachable_loops(func, owner=None, kind=ast.While, depth=2):
             if isinstance(c, ast.Attribute) and isinstance(c.value, ast.Name) and owner is not None and \
                     c.value.id in ('self', 'cls', owner.__name__):
                 for k in owner.__mro__:
-                    if c.attr in k.__dict__:
-                        target = k.__dict__[c.attr]
+                    attr = c.attr
+                    if attr.startswith('__') and not attr.endswith('__'):
+                        attr = '_' + k.__name__.lstrip('_') + attr          # private name mangling
+                    if attr in k.__dict__:
+                        target = k.__dict__[attr]
+                        break
+            elif isinstance(c, ast.Name):
+                target = f.__globals__.get(c.id)
+            if target is not None:
+                visit(target, d - 1)
+    visit(func, depth)
+    return out
+
+
+class ByIterable(object):
+    """A loop contract attached by ROLE: it applies to whichever for loop iterates over an object accepted by `accepts`;
+    any other loop that happens to carry the same key is executed normally."""
+
+    def __init__(self, accepts, spec):
+        self.accepts, self.spec = accepts, spec
+
+    def run(self, I, node, frame):
+        it = I.eval(node.iter, frame)
+        if self.accepts(it):
+            return self.spec.run(I, node, frame)
+        return I.for_plain(node, frame)
+
+
+def reachable_loop_nodes(func, owner=None, kind=ast.For, depth=2):
+    """Like reachable_loops, but returns (function object, loop node, key) triples."""
+    import types as _types
+    seen, out = set(), []
+
+    def visit(f, d):
+        f = getattr(f, '__func__', f)
+        if not isinstance(f, _types.FunctionType) or f in seen or not (f.__module__ or '').startswith('minecraft'):
+            return
+        seen.add(f)
+        try:
+            lines, start = inspect.getsourcelines(f)
+        except (OSError, TypeError):
+            return
+        tree = ast.parse(textwrap.dedent(''.join(lines)))
+        qual = f.__module__ + '.' + f.__qualname__
+        tag = {ast.While: 'while', ast.For: 'for', ast.ListComp: 'listcomp'}[kind]
+        for n in sorted((n for n in ast.walk(tree) if isinstance(n, kind)), key=lambda n: n.lineno):
+            out.append((f, n, (qual, '%s@%d' % (tag, n.lineno + start - 1))))
+        if d <= 0:
+            return
+        for n in ast.walk(tree):
+            if not isinstance(n, ast.Call):
+                continue
+            c = n.func
+            target = None
+            if isinstance(c, ast.Attribute) and isinstance(c.value, ast.Name) and owner is not None and \
+                    c.value.id in ('self', 'cls', owner.__name__):
+                for k in owner.__mro__:
+                    attr = c.attr
+                    if attr.startswith('__') and not attr.endswith('__'):
+                        attr = '_' + k.__name__.lstrip('_') + attr          # private name mangling
+                    if attr in k.__dict__:
+                        target = k.__dict__[attr]
                         break
             elif isinstance(c, ast.Name):
                 target = f.__globals__.get(c.id)
